@@ -1,12 +1,15 @@
 """C17 (narrow claim): depth and field-count queries of the node classes follow the nested structure - a list node is one level deeper than
-its content, option / indexed nodes are exactly as deep.  Types, forms, their JSON and printing / parsing are not addressed (rapidjson, std::string
-building, the Lark parser over _ext types)."""
+its content, option / indexed nodes are exactly as deep; key(position) / keys / haskey of record nodes; form(materialize) of the list, indexed
+and option node classes names the node's own kind, index width, size / valid_when / lsb_order and holds the content's own form.  Types, the
+forms of leaves / records / unions, Form <-> JSON and printing / parsing are not addressed (rapidjson, std::string building, the Lark parser
+over _ext types)."""
 from . import runner, mnode
 from .oracle import summarize
 
 ASSUMPTIONS = [
     'node objects are raw memory at the IR field offsets over an opaque content whose purelist_depth / minmax_depth / branch_depth / numfields answers are arbitrary (symbolic)',
-    'outside: Form / Type objects, type strings, Form <-> JSON, the datashape parser, purelist_isregular (computed on forms), highlevel ak.type',
+    'form(materialize): the content answers with an opaque Form object; the Form returned is read back from memory (class by vtable, tags, flags, content pointer); replay through Form::tojson of the natively built library',
+    'outside: Type objects, forms of NumpyArray / RecordArray / UnionArray / EmptyArray / VirtualArray, type strings, Form <-> JSON text, the datashape parser, purelist_isregular (computed on forms), highlevel ak.type',
 ]
 
 
